@@ -127,6 +127,19 @@ class ThermochemIncomplete(ThermochemBase):
         """Delete |eq_ND_S_ref| data."""
         self.ND_S_ref = None
 
+    def set_range(self, range=None):
+        # The table correlation built by _setup_correlation() does the range
+        # checking, so it has to follow a change of the range.
+        previous = self.range
+        ThermochemBase.set_range(self, range)
+        try:
+            self._setup_correlation()
+        except Exception:
+            ThermochemBase.set_range(self, previous)
+            self._setup_correlation()
+            raise
+    set_range.__doc__ = ThermochemBase.set_range.__doc__
+
     def _outside_range(self, T):
         try:
             self.check_range(T)
@@ -312,7 +325,7 @@ class ThermochemIncomplete(ThermochemBase):
         type(self)(ND_H_ref, ND_S_ref, ND_Cp_data, T_ref, data_range)
 
         # Now store new data and update internal correlation.
-        self.set_range(data_range)
+        ThermochemBase.set_range(self, data_range)
         self.T_ref = T_ref
         self.ND_H_ref = ND_H_ref
         self.ND_S_ref = ND_S_ref
